@@ -452,6 +452,100 @@ pub fn run() {
             }
         }
     }
+    // (e) the same map seen by the CPU: from every prior state, instructions that read / write each of the
+    // 256 addresses are executed on a Machine that owns the bus; a read must deliver REF-BUS's value and
+    // leave the bus as it was, a write must have exactly REF-BUS's effect
+    let mut cpu_ops = 0u64;
+    {
+        use emulator_2a_lib::machine::{Machine, MachineConfig, RegisterNumber, State};
+        let n = priors.len() * 256;
+        let res = mc::par_ranges(n, 64, |rg| {
+            let mut out = vec![];
+            let mut cnt = 0u64;
+            for i in rg {
+                let (pi, a) = (i / 256, (i % 256) as u8);
+                // forms: 0 LD R0,(a) ; 1 CMP R0,(a) ; 2 BITT R0,(a) ; 3 MOV R1,(R2) with R2 = a ; 4 ST (a),R0 (0x5A) ; 5 ST (a),R0 (0xFF) ; 6 BITS (a),R0 (read-modify-write)
+                for form in 0..7u8 {
+                    let code: Vec<u8> = match form {
+                        0 => vec![0xFF, a, 0x10],
+                        1 => vec![0xFF, a, 0x20],
+                        2 => vec![0xFF, a, 0x30],
+                        3 => vec![0xF6, 0x11],
+                        4 | 5 => vec![0xF0, 0x1F, a],
+                        _ => vec![0xF0, 0x5F, a],
+                    };
+                    let r0 = if form == 5 { 0xFF } else { 0x5A };
+                    let mut ops = priors[pi].clone();
+                    let r = mc::catch(|| {
+                        let (k, prior_ops) = match priors[pi].first() {
+                            Some(Op::Input(9, k)) => (*k, &priors[pi][1..]),
+                            _ => (0, &priors[pi][..]),
+                        };
+                        let (mut b, mut r) = base(k);
+                        for op in prior_ops {
+                            apply(&mut b, &mut r, *op);
+                        }
+                        // the code lives in RAM at 0x40 (both sides)
+                        for (j, byte) in code.iter().chain([0x02u8, 0x02].iter()).enumerate() {
+                            b.write(0x40 + j as u8, *byte);
+                            r.write(0x40 + j as u8, *byte);
+                        }
+                        let mut m = Machine::new(MachineConfig::default());
+                        m.raw_mut().set_stacksize(emulator_2a_lib::parser::Stacksize::_0);
+                        m.raw_mut().set_programsize(emulator_2a_lib::parser::Programsize::Size(255));
+                        *m.raw_mut().bus_mut() = b;
+                        {
+                            let regs = m.raw_mut().registers_mut();
+                            regs.set(RegisterNumber::R0, r0);
+                            regs.set(RegisterNumber::R2, a);
+                            regs.set(RegisterNumber::R3, 0x40);
+                            regs.set(RegisterNumber::R5, 0x7F);
+                        }
+                        let before = r.clone();
+                        let end = crate::mach::exec_one(&mut m, 200);
+                        if m.state() != State::Running || !matches!(end, crate::mach::RunEnd::Boundary(_)) {
+                            return Some(("cpu/completion".to_string(), format!("the instruction did not complete: {:?}", end)));
+                        }
+                        // reference effect
+                        match form {
+                            0 | 3 => {
+                                let v = before.read(a);
+                                let got = m.registers().content()[if form == 0 { 0 } else { 1 }];
+                                if got != v {
+                                    return Some(("cpu/read-value".to_string(), format!("an instruction reading {:#04x} got {:#04x}, the map says {:#04x}", a, got, v)));
+                                }
+                            }
+                            1 | 2 => {}
+                            4 | 5 => r.write(a, r0),
+                            _ => {
+                                let v = before.read(a);
+                                r.write(a, v | r0);
+                            }
+                        }
+                        compare(m.bus(), &r).map(|(k, w)| (format!("cpu/{}", k), w))
+                    });
+                    cnt += 1;
+                    ops.push(Op::Read(a));
+                    match r {
+                        Ok(Some((k, w))) => {
+                            if out.len() < 40 {
+                                out.push((k, ops, format!("instruction form {} on address {:#04x} (0 LD, 1 CMP, 2 BITT, 3 MOV R1,(R2), 4/5 ST, 6 BITS): {}", form, a, w)));
+                            }
+                        }
+                        Ok(None) => {}
+                        Err(p) => out.push((format!("panic/{}", p.file()), ops, format!("instruction form {} on address {:#04x}: panic at {}: {}", form, a, p.site(), p.msg))),
+                    }
+                }
+            }
+            (cnt, out)
+        });
+        for (c, out) in res {
+            cpu_ops += c;
+            for (k, ops, w) in out {
+                add_bad(&mut bad, k, &ops, w);
+            }
+        }
+    }
     // (d) BFS over operation sequences
     let addrs: Vec<u8> = vec![0x00, 0x7F, 0xEE, 0xEF, 0xF0, 0xF1, 0xF2, 0xF3, 0xF4, 0xF5, 0xF6, 0xF7, 0xF8, 0xF9, 0xFA, 0xFB, 0xFC, 0xFD, 0xFE, 0xFF];
     let vals: Vec<u8> = vec![0x00, 0x01, 0x80, 0xC7, 0xFF];
@@ -576,6 +670,7 @@ pub fn run() {
     ctx.set("single_operations", singles);
     ctx.set("pair_operations", pairs);
     ctx.set("io_page_write_pairs", io_pairs);
+    ctx.set("accesses_through_cpu_instructions", cpu_ops);
     ctx.set("distinct_outcomes", stats.states);
     ctx.sample(line(&[Op::Write(0xEF, 0xC7), Op::Write(0xF0, 0x80), Op::Read(0xEF)]));
     ctx.sample(line(&priors[2]));
